@@ -88,6 +88,8 @@ class ProgGen(object):
             # a step whose definition is a parameterless cucumber expression (the literal final text), from a step module that
             # selects behave.cucumber_expression's matcher
             tok_kind = "c"
+            if placeholder and any(ch in v for v in (row_values or []) for ch in "\\{}()/"):
+                tok_kind = "k"      # (a literal text with expression metacharacters is no cucumber expression for itself)
         tok = "%s%d" % (tok_kind, n)
         text = tmpl % tok
         for v, oc in finals:
@@ -149,6 +151,9 @@ class ProgGen(object):
             rows = []
             for ri in range(nrows):
                 v = "%sv%d" % (name.lower(), self.ids.next())
+                if r.random() < o.get("p_odd_cell", 0.08):
+                    # cells that are legal and unusual: a Windows path (backslash + letter), format characters -- still unique
+                    v = r.choice(["D:\\data\\logs\\%s", "C:\\temp\\new%s", "100%%%s", "{%s}"]) % v
                 tagv = r.choice(o.get("tag_values") or o["tags"])
                 rows.append([v, tagv])
                 values.append(v)
@@ -166,6 +171,16 @@ class ProgGen(object):
             tagv = r.choice(o.get("tag_values") or o["tags"])
             e["rows"].append([v, tagv] if e["header"] == ["x", "t"] else [tagv, v])
             values.append(v)
+        if values and r.random() < o.get("p_empty_cell", 0.1):
+            # one row whose cell is EMPTY (an optional word): the placeholder is replaced by nothing
+            k = r.randrange(len(values))
+            victim = values[k]
+            for e in examples:
+                xi = e["header"].index("x")
+                for row in e["rows"]:
+                    if row[xi] == victim:
+                        row[xi] = ""
+            values[k] = ""
         extra = []
         if r.random() < o["p_param_tag"]:
             extra.append(r.choice(["<t>", "p.<t>"]))
